@@ -21,7 +21,11 @@ def check(m, run):
     from .. import skel_drivers as _sd
     _sd.kir3(m, run, ('refine',))        # A5.4 on exact rational knots and symbolic control points equals the single insertions of its new knots
     oc.block_rules(m, run, fi, 'refine')
-    oc.helper_alias_rules(m, run, 'helpers.knot_refinement', pu1=False)
+    # aliasing inside the row helpers is decided by the exact runs on rows of points (KF3: shared rows change together, and the rows handed
+    # in must stay what they were); the rule that reads which stores are deep copies corroborates
+    sem_ok_ = all(o.ok for o in run.obs if o.rule.startswith('KF3'))
+    with run.corroborating(sem_ok_, 'KF3', rules=('AL1.no-shared-cells', 'PU1.rows-not-mutated')):
+        oc.helper_alias_rules(m, run, 'helpers.knot_refinement', pu1=False)
     run.floor('AL1.no-shared-cells', 2, 'row duplication in A5.4')
     from .. import rules_state as rs
     rs.iv1(m, run, [('NURBS', 'Curve'), ('NURBS', 'Surface'), ('NURBS', 'Volume')], caches_filter=lambda c: c in ("_cache['ctrlpts']", "_cache['weights']"))
